@@ -219,6 +219,116 @@ Proof.
   eapply Forall_impl; [|exact Hall]. intros y Hy. unfold lex_le, cs_le in *. cbv beta in Hy. lia.
 Qed.
 
+(* ------------------------------------------------------------------ programs: steps, then a strand-aware consumer *)
+Lemma good_wf : forall s es, forallb (entry_good s) es = true -> Forall (entry_wf s) es.
+Proof.
+  intros s es H. apply Forall_forall. intros e He. rewrite forallb_forall in H. specialize (H e He).
+  unfold entry_good, in_range in H. repeat (apply andb_prop in H; destruct H as [H ?]).
+  repeat match goal with H : (_ <=? _) = true |- _ => apply Z.leb_le in H | H : (_ <? _) = true |- _ => apply Z.ltb_lt in H end.
+  unfold entry_wf, entry_placed, entry_in. lia.
+Qed.
+Lemma merged_entries_spec : forall szs d es, nonneg szs -> 0 <= d -> Forall (entry_wf szs) es -> StronglySorted cs_le es ->
+  merged_entries szs d es = inr (spec_merged szs d es).
+Proof.
+  intros szs d es Hs Hd Hwf Hsorted. unfold merged_entries. destruct (Z.ltb_spec d 0); [lia|].
+  unfold check_bounds. rewrite check_bounds_ok by (eapply Forall_impl; [|exact Hwf]; intros e [He _]; exact He).
+  change (map (fun e => set_se e (e_start e + gap_shift szs d (e_chr e)) (e_stop e + gap_shift szs d (e_chr e))) es)
+    with (map (sh szs d) es).
+  rewrite starts_sorted_sh by assumption. f_equal.
+  rewrite (merged_blocks szs d Hs Hd (length szs) 0 es); try assumption; try (unfold len; lia).
+  - rewrite map_map. unfold spec_merged, arange, len. rewrite Nat2Z.id.
+    rewrite <- (map_id (concat _)) at 2. apply map_ext. intros [c s t f]. unfold sh, tr, set_se. cbn [e_chr e_start e_stop e_fwd].
+    f_equal; lia.
+  - eapply Forall_impl; [|exact Hwf]. intros e [[[Hc _] _] _]. unfold len in *. cbv beta. lia.
+Qed.
+Lemma model_clip_spec : forall szs es, model_clip szs es = spec_clip szs es.
+Proof. reflexivity. Qed.
+
+Definition no_extend (ps : list pstep) : Prop := forall n, ~ In (PExtend n) ps.
+(* every interval-producing operation hands the strandedness on (extended_to_size: when it passes the flag) *)
+Lemma model_step_flag : forall keep szs fl rows p fl' rows',
+  (keep = true \/ fl = false \/ (forall n, p <> PExtend n)) ->
+  model_step_gen keep szs (fl, rows) p = inr (fl', rows') -> fl' = fl.
+Proof.
+  intros keep szs fl rows p fl' rows' Hc H. destruct p; cbn [model_step_gen] in H.
+  - inversion H; reflexivity.
+  - destruct (merged_entries szs d rows); inversion H; reflexivity.
+  - inversion H; reflexivity.
+  - inversion H. destruct Hc as [-> | [-> | Hn]]; [apply andb_true_r|reflexivity|exfalso; apply (Hn n); reflexivity].
+  - inversion H; reflexivity.
+  - destruct (len m =? len rows); inversion H; reflexivity.
+  - inversion H; reflexivity.
+Qed.
+Theorem strandedness_preserved : forall szs ps fl rows fl' rows',
+  (extend_keeps_strand = true \/ fl = false \/ no_extend ps) ->
+  model_steps szs (fl, rows) ps = inr (fl', rows') -> fl' = fl.
+Proof.
+  intros szs. induction ps as [|p ps IH]; intros fl rows fl' rows' Hc H.
+  - cbn in H. inversion H. reflexivity.
+  - cbn [model_steps] in H. destruct (model_step szs (fl, rows) p) as [c|[fl1 rows1]] eqn:E; [discriminate|].
+    assert (fl1 = fl).
+    { apply (model_step_flag extend_keeps_strand szs fl rows p fl1 rows1); [|exact E].
+      destruct Hc as [Hk|[Hf|Hn]]; [left; exact Hk|right; left; exact Hf|right; right].
+      intros n Hp. apply (Hn n). left. exact Hp. }
+    subst fl1. apply (IH fl rows1 fl' rows'); [|exact H].
+    destruct Hc as [Hk|[Hf|Hn]]; [left; exact Hk|right; left; exact Hf|right; right].
+    intros n Hin. apply (Hn n). right. exact Hin.
+Qed.
+(* an extended_to_size that does not pass the flag on loses it *)
+Theorem strandedness_lost_refuted : exists szs rows n fl' rows',
+  model_step_gen false szs (true, rows) (PExtend n) = inr (fl', rows') /\ fl' = false.
+Proof. exists [3], [mk 0 0 1], 2. eexists. eexists. split; reflexivity. Qed.
+
+Lemma spec_step_model : forall szs st rows p rows', nonneg szs ->
+  (extend_keeps_strand = true \/ st = false \/ (forall n, p <> PExtend n)) ->
+  spec_step szs st rows p = Some rows' -> model_step szs (st, rows) p = inr (st, rows').
+Proof.
+  intros szs st rows p rows' Hs Hc H. unfold model_step. destruct p; cbn [spec_step model_step_gen] in *.
+  - inversion H. reflexivity.
+  - destruct (sorted_by (fun e => (e_chr e, e_start e, 0)) rows) eqn:E1; [|discriminate].
+    destruct (forallb (entry_good szs) rows) eqn:E2; [|discriminate]. destruct (Z.leb_spec 0 d); [|discriminate].
+    cbn in H. inversion H. rewrite (merged_entries_spec szs d rows); try assumption; [reflexivity|apply good_wf; exact E2|].
+    apply chr_start_sorted_strong. exact E1.
+  - inversion H. reflexivity.
+  - inversion H. f_equal. f_equal. destruct Hc as [-> | [-> | Hn]]; [apply andb_true_r|reflexivity|exfalso; apply (Hn n); reflexivity].
+  - inversion H. reflexivity.
+  - destruct (len m =? len rows); [|discriminate]. inversion H. reflexivity.
+  - destruct (Z.leb_spec 0 w); [|discriminate]. destruct (Z.leb_spec w 2); [|discriminate]. cbn in H. inversion H.
+    f_equal. f_equal. unfold model_clip. rewrite map_map. apply map_ext. intros e.
+    rewrite location_fixed_spec by lia. reflexivity.
+Qed.
+Lemma spec_steps_model : forall szs st ps rows rows', nonneg szs ->
+  (extend_keeps_strand = true \/ st = false \/ no_extend ps) ->
+  spec_steps szs st rows ps = Some rows' -> model_steps szs (st, rows) ps = inr (st, rows').
+Proof.
+  intros szs st. induction ps as [|p ps IH]; intros rows rows' Hs Hc H.
+  - cbn in *. inversion H. reflexivity.
+  - cbn [spec_steps model_steps] in *. destruct (spec_step szs st rows p) as [rows1|] eqn:E; [|discriminate].
+    rewrite (spec_step_model szs st rows p rows1 Hs); [|
+      destruct Hc as [Hk|[Hf|Hn]]; [left; exact Hk|right; left; exact Hf|right; right; intros n Hp; apply (Hn n); left; exact Hp]
+      |exact E].
+    apply IH; [exact Hs| |exact H].
+    destruct Hc as [Hk|[Hf|Hn]]; [left; exact Hk|right; left; exact Hf|right; right; intros n Hin; apply (Hn n); right; exact Hin].
+Qed.
+(* a program of the model is the composition of the per-chromosome operations on a table that stays as stranded as it
+   was created *)
+Theorem prog_spec : forall szs vals st es ps k r, nonneg szs ->
+  (extend_keeps_strand = true \/ st = false \/ no_extend ps) ->
+  (k = CExtract -> szs = map len vals) ->
+  (k = CSeq -> forall rows, spec_steps szs st es ps = Some rows ->
+     st = false \/ len rows < len (concat (map (fun e => slice (e_start e) (e_stop e) (nthd [] vals (e_chr e))) rows))) ->
+  spec_prog szs vals st es ps k = Some r -> model_prog szs vals st es ps k = r.
+Proof.
+  intros szs vals st es ps k r Hs Hc Hx Hq H. unfold spec_prog, model_prog in *.
+  destruct (spec_steps szs st es ps) as [rows|] eqn:E; [|discriminate].
+  rewrite (spec_steps_model szs st ps es rows Hs Hc E). destruct k; cbn [spec_cons model_cons] in *.
+  - destruct (forallb (entry_good szs) rows) eqn:G; [|discriminate]. inversion H.
+    apply extract_local; [apply Hx; reflexivity|apply good_wf; exact G].
+  - destruct (forallb (entry_good szs) rows) eqn:G; [|discriminate]. inversion H. apply seq_partial. apply (Hq eq_refl rows eq_refl).
+  - destruct (Z.leb_spec 0 w); [|discriminate]. destruct (Z.leb_spec w 2); [|discriminate]. cbn in H. inversion H.
+    f_equal. apply map_ext. intros e. rewrite location_fixed_spec by lia. reflexivity.
+Qed.
+
 (* ------------------------------------------------------------------ the guard common to model_run and spec_run *)
 Lemma geo_guard : forall c, (is_geo (k_op c) = true -> all_included c = true) ->
   is_geo (k_op c) && negb (all_included c) = false.
@@ -257,6 +367,11 @@ Definition case_wf (c : case) : Prop :=
      | OExtract _ => szs c = map len (cvals c)
      | OSeq st => forallb (entry_good (szs c)) (ves c) = true
                   /\ (st = false \/ len (ves c) < len (concat (map (fun e => slice (e_start e) (e_stop e) (nthd [] (cvals c) (e_chr e))) (ves c))))
+     | OProg st ps k =>
+         (extend_keeps_strand = true \/ st = false \/ no_extend ps)
+         /\ (k = CExtract -> szs c = map len (cvals c))
+         /\ (k = CSeq -> forall rows, spec_steps (szs c) st (ves c) ps = Some rows ->
+               st = false \/ len rows < len (concat (map (fun e => slice (e_start e) (e_stop e) (nthd [] (cvals c) (e_chr e))) rows)))
      | _ => True
      end.
 
@@ -265,7 +380,7 @@ Theorem model_accepts : forall c, case_wf c ->
 Proof.
   intros c [Hs [Ho [Hg Hop]]]. unfold model_run, spec_run. rewrite (geo_guard c Hg). cbv zeta.
   pose proof (refused c Ho) as Href.
-  destruct (k_op c) as [ |geo|geo|geo d| geo|geo n|geo|st w|l r| |st|st] eqn:Eop.
+  destruct (k_op c) as [ |geo|geo|geo d| geo|geo n|geo|st w|l r| |st|st|st ps k] eqn:Eop.
   - (* coords *) rewrite (coords_spec (szs c) Hs). cbn [accepts]. apply res_eqb_refl.
   - (* pileup *) apply placed_accepts; [rewrite Eop; exact Hg| |].
     + intros Hgd. apply pileup_local; [exact Hs|apply wf_placed, good_placed; exact Hgd].
@@ -330,6 +445,9 @@ Proof.
   - (* sequence *) destruct Hop as [Hgd Hguard]. apply placed_accepts; [rewrite Eop; exact Hg| |].
     + intros _. apply seq_partial. exact Hguard.
     + intros Hb. congruence.
+  - (* programs *) destruct Hop as [Hc [Hx Hq]].
+    destruct (spec_prog (szs c) (cvals c) st (ves c) ps k) as [r|] eqn:E; cbn [accepts]; [|reflexivity].
+    rewrite (prog_spec _ _ _ _ _ _ r Hs Hc Hx Hq E). apply res_eqb_refl.
 Qed.
 
 Theorem model_ok_spec_ok : forall c, case_wf c -> model_ok c = true -> spec_ok c = true.
